@@ -76,7 +76,11 @@ func bigTextCases(r *rand.Rand, st *Stats, n int, prefix string) []Case {
 		case 1:
 			put(10)
 		case 2:
-			put(4096 + r.Intn(size-4095))
+			if size > 4096 {
+				put(4096 + r.Intn(size-4096))
+			} else {
+				put(size - 1)
+			}
 		case 3:
 			for _, w := range []int{2047, 2048, 4095, 4096, 4097, 6143, 6144, 8191, 8192} {
 				put(w)
